@@ -112,6 +112,8 @@ func Run(c *hx.Ctx) {
 			dispCases(c)
 		case "h2disp":
 			h2dispCases(c)
+		case "h1disp":
+			h1dispCases(c)
 		case "dmeta":
 			dmetaCases(c)
 		case "pool":
@@ -215,6 +217,8 @@ func Run(c *hx.Ctx) {
 	dispCases(c)
 	// the decode loops of the real HTTP/2 server / client Dispatch under a Decode-call recorder and a watchdog
 	h2dispCases(c)
+	// the HTTP/1 read path: real server / client stream connection (Dispatch pipe + serve goroutine) on malformed input
+	h1dispCases(c)
 	// dubbo service-aware metadata walk: hessian2 fields of unexpected types at each position
 	dmetaCases(c)
 	// a panicking task through the real worker pool in every pool state, each probe in a child process
